@@ -25,6 +25,9 @@ type c08Case struct {
 
 // ---- JSON ----
 
+// c08KidCap bounds how many sub-values are used as children at the next level (quick 14, thorough 36).
+var c08KidCap = 14
+
 func c08JSONValues(depth int, scalars, keys []string, maxWidth int) []string {
 	if depth == 0 {
 		return scalars
@@ -32,9 +35,9 @@ func c08JSONValues(depth int, scalars, keys []string, maxWidth int) []string {
 	sub := c08JSONValues(depth-1, scalars, keys, maxWidth)
 	// keep the recursion small: children are drawn from a stride of the sub-values
 	kids := sub
-	if len(kids) > 14 {
+	if len(kids) > c08KidCap {
 		var k2 []string
-		step := len(kids)/14 + 1
+		step := len(kids)/c08KidCap + 1
 		for i := 0; i < len(kids); i += step {
 			k2 = append(k2, kids[i])
 		}
@@ -394,7 +397,7 @@ func init() {
 	core.Register(&core.Prop{
 		ID:    "C08",
 		Level: "exploration",
-		Rule:  "JSON: every value to depth 3 (thorough 4; width 2, children from a stride of the previous level plus all container corner cases) over scalars {null,true,false,0,-1.5,1e2,1e19,12345678901234567890,0.1,\"\",\"a\",\"é\",\"\\\"\",\"\\u0000\"} and distinct keys from {\"\",a,b}, read as the whole document, as an element of a top-level array, and copied by the `copy` custom_func through a full Transform; the tree converted back (J2NodeToInterface with type flags) must deep-equal encoding/json's decoding. XML: every element tree with 1-2 elements (3 with reduced alphabets) x 8 namespace decorations (default, prefixed, redeclared, undeclared, two prefixes for one URI, prefix rebound, default+prefix same URI) x attributes {none,k,p:k,xml:lang,k+p:k,empty} x content {none,text,whitespace,entities,CDATA,comment,PI,text-comment-text,text-CDATA-text}; the node tree must equal, token by token, what encoding/xml reports (Token for URIs/values/chardata, RawToken for the prefix written in the document), attributes first; distinct by (kind, document)",
+		Rule:  "JSON: every value to depth 3 (thorough 4; width 2, children from a stride of the previous level plus all container corner cases) over scalars {null,true,false,0,-1.5,1e2,1e19,12345678901234567890,0.1,\"\",\"a\",\"é\",\"\\\"\",\"\\u0000\"} and distinct keys from {\"\",a,b}, read as the whole document, as an element of a top-level array, and copied by the `copy` custom_func through a full Transform; the tree converted back (J2NodeToInterface with type flags) must deep-equal encoding/json's decoding. XML: every element tree with 1-2 elements (3, thorough 4, with reduced alphabets) x 8 namespace decorations (default, prefixed, redeclared, undeclared, two prefixes for one URI, prefix rebound, default+prefix same URI) x attributes {none,k,p:k,xml:lang,k+p:k,empty} x content {none,text,whitespace,entities,CDATA,comment,PI,text-comment-text,text-CDATA-text}; the node tree must equal, token by token, what encoding/xml reports (Token for URIs/values/chardata, RawToken for the prefix written in the document), attributes first; distinct by (kind, document)",
 		Assumptions: []string{
 			"encoding/json and encoding/xml are the reference decoders; objects with duplicate keys are outside the alphabet",
 		},
@@ -420,8 +423,10 @@ func init() {
 			}
 			scalars := []string{"null", "true", "false", "0", "-1.5", "1e2", "1e19", "12345678901234567890", "0.1", `""`, `"a"`, `"é"`, `"\""`, `"\u0000"`, "9007199254740993", "1.7976931348623157e308", "-0"}
 			depth := 3
+			c08KidCap = 14
 			if !c.Quick() {
 				depth = 4
+				c08KidCap = 36
 			}
 			vals := c08JSONValues(depth, scalars, []string{"", "a", "b"}, 2)
 			c.Max("json_values", int64(len(vals)))
@@ -432,9 +437,13 @@ func init() {
 					}
 				}
 			}
-			for n := 1; n <= 3; n++ {
+			nmax := 3
+			if !c.Quick() {
+				nmax = 4
+			}
+			for n := 1; n <= nmax; n++ {
 				stop := false
-				c08XMLDocs(n, n == 3, func(doc string) bool {
+				c08XMLDocs(n, n >= 3, func(doc string) bool {
 					if !try(c08Case{Kind: "xml", Doc: doc}) {
 						stop = true
 						return false
